@@ -34,7 +34,7 @@ REQUIRED = {
     "sampled_batches_compared": 100, "module_round_trips": 12,
     "orbax_round_trips": 4, "post_reload_optimizer_steps": 8,
 }
-TIMEOUT = {"quick": 1200, "thorough": 3400}
+TIMEOUT = {"quick": 1200, "thorough": 7000}
 ASSUMPTIONS = ["only the filled part of the data arrays is compared (unwritten "
                "slots hold uninitialised memory in the original)"]
 
@@ -46,7 +46,7 @@ MODS = ["mlp", "gaussian", "layernorm", "doubleq", "sale", "encoder_policy",
 
 def gen_cases(tier, seed):
     rng = np.random.default_rng(seed + 1919)
-    k = 1 if tier == "quick" else 10
+    k = 1 if tier == "quick" else 25
     cases = []
     for b in BUFS:
         for r in range(4 * k):
